@@ -442,6 +442,15 @@ func (t *tOps) reader(ch *cache.Handle) (*table.Reader, error) {
 	return nil, ErrClosed
 }
 
+// A reader whose cache handle is held is only released when the table cache
+// is closed by force, that is when the DB is closed: report it as such.
+func closedIfReleased(err error) error {
+	if err == table.ErrReaderReleased {
+		return ErrClosed
+	}
+	return err
+}
+
 // Finds key/value pair whose key is greater than or equal to the
 // given key.
 func (t *tOps) find(f *tFile, key []byte, ro *opt.ReadOptions) (rkey, rvalue []byte, err error) {
@@ -454,7 +463,8 @@ func (t *tOps) find(f *tFile, key []byte, ro *opt.ReadOptions) (rkey, rvalue []b
 	if err != nil {
 		return nil, nil, err
 	}
-	return tr.Find(key, true, ro)
+	rkey, rvalue, err = tr.Find(key, true, ro)
+	return rkey, rvalue, closedIfReleased(err)
 }
 
 // Finds key that is greater than or equal to the given key.
@@ -468,7 +478,8 @@ func (t *tOps) findKey(f *tFile, key []byte, ro *opt.ReadOptions) (rkey []byte, 
 	if err != nil {
 		return nil, err
 	}
-	return tr.FindKey(key, true, ro)
+	rkey, err = tr.FindKey(key, true, ro)
+	return rkey, closedIfReleased(err)
 }
 
 // Returns approximate offset of the given key.
@@ -482,7 +493,8 @@ func (t *tOps) offsetOf(f *tFile, key []byte) (offset int64, err error) {
 	if err != nil {
 		return 0, err
 	}
-	return tr.OffsetOf(key)
+	offset, err = tr.OffsetOf(key)
+	return offset, closedIfReleased(err)
 }
 
 // Creates an iterator from the given table.
